@@ -270,7 +270,7 @@ class SetAlg:
             r = self._comp_member(e, t[2], t[3])
             if r is not None:
                 return r
-            if len(t[3]) >= 2 and not (isinstance(t[2], tuple) and t[2] and t[2][0] == "%payload"):
+            if len(t[3]) >= 1 and not (isinstance(t[2], tuple) and t[2] and t[2][0] == "%payload"):
                 # {x for s in S for x in f(s)} = ⋃_{s in S} f(s): a comprehension with several generators is a big union
                 return self._member_part(e, ("bigunion", ("comp", "set", ("setlit", (t[2],)), tuple(t[3]))))
         if h == "comp" and t[1] == "dict" and t[2][0] == "kv":
@@ -345,6 +345,14 @@ class SetAlg:
             mapping = None
             if len(gens) == 1:
                 mapping = self._match_pattern(gens[0][0], v, e)
+                pat0 = gens[0][0]
+                if mapping is None and v[0] == "tuplelit" and pat0[0] == "tuplelit" and len(v[1]) == len(pat0[1]) and all(x[0] == "var" for x in pat0[1]) \
+                        and sorted(map(repr, v[1])) == sorted(map(repr, pat0[1])) and len(set(v[1])) == len(v[1]):
+                    # {(b, a) for (a, b) in S}: e belongs iff the re-ordered tuple belongs to S
+                    pos = {x: i for i, x in enumerate(v[1])}
+                    mapping = {x: ("proj", e, pos[x]) for x in pat0[1]}
+                    src_elem = ("tuplelit", tuple(("proj", e, pos[x]) for x in pat0[1]))
+                    return f_and(self.member(src_elem, gens[0][1]), *[self.cond(subst(c, mapping)) for c in gens[0][2]])
             if mapping is not None:
                 return f_and(self.member(e, gens[0][1]), *[self.cond(subst(c, mapping)) for c in gens[0][2]])
         cg = tuple((pat, self.canon(("setof", it)), tuple(self._canon_cond(c) for c in conds)) for pat, it, conds in gens)
@@ -414,6 +422,11 @@ class SetAlg:
             return f_or(*[self.cond(x) for x in c[1:]])
         if h == "in":
             return self.member(c[1], c[2])
+        if h in ("eq", "ne") and self._is_boolean(c[1]) and self._is_boolean(c[2]):
+            # equality of two truth values is their equivalence
+            a_, b_ = self.cond(c[1]), self.cond(c[2])
+            iff = f_or(f_and(a_, b_), f_and(f_not(a_), f_not(b_)))
+            return iff if h == "eq" else f_not(iff)
         if h == "eq":
             return self.eq_atom(c[1], c[2])
         if h == "ne":
@@ -455,6 +468,10 @@ class SetAlg:
                     parts.append(body)
                 return f_or(*parts) if h == "any" else f_and(*parts)
         return ("atom", self.canon(c))
+
+    def _is_boolean(self, t: Term) -> bool:
+        return t[0] in ("isinstance", "in", "not", "and", "or", "truth", "any", "all", "isnone", "lt", "le", "subset", "psubset", "disjoint") or (
+            t[0] == "const" and isinstance(t[1], bool))
 
     # -- canonical forms -----------------------------------------------------------------------
     def is_setexpr(self, t: Term) -> bool:
@@ -523,6 +540,10 @@ class SetAlg:
             return ("comp", t[1], self.canon(t[2]), gens)
         if h in ("in", "not", "and", "or", "truth", "subset", "disjoint"):
             return self._canon_cond(t)
+        if h == "call" and t[1] in ("sorted", "min", "max") and t[2] and t[2][0][0] in ("listlit", "tuplelit", "setlit") and not any(x[0] == "star" for x in t[2][0][1]):
+            # sorted([a, b]) = sorted((b, a)): the argument is a multiset
+            items = tuple(sorted((self.canon(x) for x in t[2][0][1]), key=repr))
+            return ("call", t[1], (("listlit", items),) + tuple(self.canon(x) for x in t[2][1:]), self.canon(t[3]))
         if h == "ite":
             # a chain of conditionals is a case distinction: the set of (full guard, value) pairs, independent of the order of the tests
             cases = []
